@@ -9,8 +9,9 @@
     [last_text h q] = the latest text the editor sent for [q] ([None]: never opened);
     [truth w h q] = that text if there is one, else the on-disk text. *)
 From Coq Require Import List NArith Bool.
-From TG.Model Require Import Includes Host HostInst.
-From TG.Proofs Require Import IncludesGraph IncludesRefine HostHistory HostTheorems HostExamples.
+From TG.Model Require Import Includes Host HostInst FsOps.
+From TG.Gen Require Import GenFileSystem.
+From TG.Proofs Require Import IncludesGraph IncludesRefine HostHistory HostTheorems HostExamples GenFileSystemEq.
 Import ListNotations.
 Local Open Scope nat_scope.
 
@@ -42,6 +43,20 @@ Example C12_hypotheses_satisfiable :
     option_map c_tag (fc (snd st) 3%N) = Some 4%N.
 Proof. exact ex_c12. Qed.
 
+(** THE MODEL IS THE SOURCE (tie by translation + proof): the rendering of the CURRENT crates/lsp/src/vfs.rs
+    (struct Vfs, new, set_open_document, assign_or_get_file_id, path_for_file, read_content and their private
+    helpers; TG.Gen.GenFileSystem, regenerated on every run) equals [fs_init] / [set_open] / [assign] /
+    [path_for_file] / [read] on embedded states ([emb_vfs]) for all arguments *)
+Theorem C12_model_is_source :
+  forall (path istr : Type) (PA : PathAlg path istr) (w : world path istr),
+  gen_Vfs_new = emb_vfs (@fs_init path istr) /\
+  (forall (fs : @fsys path istr) p c, gen_Vfs_set_open_document (emb_vfs fs) p c = emb_vfs (set_open fs p c)) /\
+  (forall (fs : @fsys path istr) p, gen_Vfs_assign_or_get_file_id (emb_vfs fs) p = let '(f, fs') := assign fs p in (emb_vfs fs', f)) /\
+  (forall (fs : @fsys path istr) f, gen_Vfs_path_for_file (emb_vfs fs) f =
+                match path_for_file fs f with Some p => Done p | None => Panic PNoPath end) /\
+  (forall (fs : @fsys path istr) p, gen_Vfs_read_content w (emb_vfs fs) p = read w fs p).
+Proof. exact (@c12_model_is_source). Qed.
+
 Check C12_buffers_win :
   forall (path istr : Type) (PA : PathAlg path istr) (PAok : PathAlgOk path istr)
          (w : world path istr) fuel h (st : @state path istr),
@@ -54,3 +69,4 @@ Check C12_buffers_win :
      path_for_file (fst st) f = Some q /\ fc (snd st) f = truth w h q /\ fc (snd st) f <> None).
 
 Print Assumptions C12_buffers_win.
+Print Assumptions C12_model_is_source.
